@@ -13,6 +13,7 @@ import (
 	"math/rand/v2"
 	"os"
 	"sort"
+	"strings"
 	"time"
 
 	"github.com/bronlabs/bron-crypto/pkg/base/datastructures/hashmap"
@@ -253,12 +254,12 @@ func rejectsJ(rs []proto.Reject) []any {
 func doDeal(pol *ad.Policy) *epoch {
 	as, err := pol.Build()
 	if err != nil {
-		w.Emit(map[string]any{"a": "dealRefused", "pol": pol, "err": tr.ErrClass(err)})
+		w.Emit(map[string]any{"a": "dealRefused", "pol": pol, "err": tr.ErrClass(err), "degenH": false})
 		return nil
 	}
 	out, err := trusteddealer.Deal(toy.NewGroup(), as, reader())
 	if err != nil {
-		w.Emit(map[string]any{"a": "dealRefused", "pol": pol, "err": tr.ErrClass(err)})
+		w.Emit(map[string]any{"a": "dealRefused", "pol": pol, "err": tr.ErrClass(err), "degenH": false})
 		return nil
 	}
 	ep := &epoch{pol: pol, as: as, shards: map[ID]*ad.Shard{}}
@@ -458,11 +459,22 @@ func doMix(cur, old *epoch, s []ID, useOld map[ID]bool) {
 	w.Emit(ev)
 }
 
+// degenerateH projects one specific refusal: the second Pedersen generator that Gennaro's constructor hashes out of the
+// session transcript came out as g or as the identity (probability 2/q: visible on the small toy groups only).
+func degenerateH(err error) bool {
+	if err == nil {
+		return false
+	}
+	s := tr.ErrChain(err)
+	return strings.Contains(s, "failed to create pedersen key") &&
+		(strings.Contains(s, "generators must be distinct") || strings.Contains(s, "generators must not be the identity element"))
+}
+
 // doDKG runs a real Gennaro or Canetti DKG (all parties honest) and logs every dealing column and share on the wire.
 func doDKG(which string, pol *ad.Policy) *epoch {
 	as, err := pol.Build()
 	if err != nil {
-		w.Emit(map[string]any{"a": "dealRefused", "pol": pol, "err": tr.ErrClass(err)})
+		w.Emit(map[string]any{"a": "dealRefused", "pol": pol, "err": tr.ErrClass(err), "degenH": false})
 		return nil
 	}
 	hs := holders(pol)
@@ -477,7 +489,7 @@ func doDKG(which string, pol *ad.Policy) *epoch {
 		case "gennaro":
 			g, err := ad.NewGennaroParty(ctxs[id], as, fiatshamir.Name, reader())
 			if err != nil {
-				w.Emit(map[string]any{"a": "dealRefused", "pol": pol, "err": tr.ErrClass(err)})
+				w.Emit(map[string]any{"a": "dealRefused", "pol": pol, "err": tr.ErrClass(err), "degenH": degenerateH(err)})
 				return nil
 			}
 			ps = append(ps, g)
@@ -485,7 +497,7 @@ func doDKG(which string, pol *ad.Policy) *epoch {
 		case "canetti":
 			c, err := ad.NewCanettiParty(ctxs[id], as, reader())
 			if err != nil {
-				w.Emit(map[string]any{"a": "dealRefused", "pol": pol, "err": tr.ErrClass(err)})
+				w.Emit(map[string]any{"a": "dealRefused", "pol": pol, "err": tr.ErrClass(err), "degenH": false})
 				return nil
 			}
 			ps = append(ps, c)
@@ -633,7 +645,7 @@ func runRunners[O any](ids []ID, mk func(id ID) (network.Runner[O], error)) (map
 func doDKGRunner(which string, pol *ad.Policy) *epoch {
 	as, err := pol.Build()
 	if err != nil {
-		w.Emit(map[string]any{"a": "dealRefused", "pol": pol, "err": tr.ErrClass(err)})
+		w.Emit(map[string]any{"a": "dealRefused", "pol": pol, "err": tr.ErrClass(err), "degenH": false})
 		return nil
 	}
 	hs := holders(pol)
@@ -649,7 +661,7 @@ func doDKGRunner(which string, pol *ad.Policy) *epoch {
 		}
 		return canetti.NewRunner(ctxs[id], as, toy.NewGroup(), reader())
 	})
-	ev := map[string]any{"a": "dkgRun", "proto": which, "pol": pol, "ok": err == nil, "err": tr.ErrClass(err), "shards": map[string]any{}, "certs": []ad.Cert{}}
+	ev := map[string]any{"a": "dkgRun", "proto": which, "pol": pol, "ok": err == nil, "err": tr.ErrClass(err), "degenH": degenerateH(err), "shards": map[string]any{}, "certs": []ad.Cert{}}
 	if err == nil {
 		M, lab := mspInts(anyShard(shards))
 		ev["shards"], ev["certs"] = shardsJ(shards), ad.AllCerts("cur", M, lab)
